@@ -224,8 +224,39 @@ func (e *Exec) strToRunes(s *StrV) *SliceV {
 		}
 		return &SliceV{O: e.newObj(arr, "runes"), Len: cbv(uint64(len(rs)), 64), Cap: len(rs)}
 	}
-	e.unsupported("[]rune(symbolic string)")
-	return nil
+	// symbolic string: the empty case is exact; otherwise a bounded number of runes (1..StrConvMax, tied to the
+	// byte length by len/4 <= n <= len) whose values are uninterpreted functions of the string and the position
+	// (an over-approximation: the runes are not tied to the bytes)
+	if e.branch(&BoolV{T: "(= " + s.T + " \"\")"}) {
+		return &SliceV{O: e.newObj(&ArrayV{}, "runes"), Len: cbv(0, 64), Cap: 0}
+	}
+	e.stub("model:[]rune(symbolic string)(empty exact; 1.." + fmt.Sprint(e.cfg.StrConvMax) + " runes as uninterpreted functions of string and position)")
+	max := e.cfg.StrConvMax
+	if max < 1 {
+		max = 8
+	}
+	n := 1
+	ln := "(str.len " + s.T + ")"
+	for ; n < max; n++ {
+		// n runes are possible iff n <= len <= 4n
+		if e.branch(&BoolV{T: fmt.Sprintf("(and (<= %d %s) (<= %s %d))", n, ln, ln, 4*n)}) {
+			break
+		}
+	}
+	if n == max {
+		if !e.branch(&BoolV{T: fmt.Sprintf("(and (<= %d %s) (<= %s %d))", n, ln, ln, 4*n)}) {
+			e.res.UnwindCuts["[]rune(string) longer than bound"]++
+			panic(pathEnd{"unwind-cut", "[]rune(string) beyond bound"})
+		}
+	}
+	e.declareFun("uf_rune", "(String Int) (_ BitVec 32)")
+	arr := &ArrayV{E: make([]Value, n)}
+	for i := range arr.E {
+		t := fmt.Sprintf("(uf_rune %s %d)", s.T, i)
+		e.assume("(bvule " + t + " (_ bv1114111 32))")
+		arr.E[i] = &BV{T: t, W: 32}
+	}
+	return &SliceV{O: e.newObj(arr, "runes"), Len: cbv(uint64(n), 64), Cap: n}
 }
 
 func (e *Exec) runesToStr(sl *SliceV) *StrV {
